@@ -414,8 +414,20 @@ CLAIMED["C20"] = dict(
          "operation, Hermiticity, centres, idempotence.",
     note=TB + "; set-up by installed code on concrete input, cross-checked by the geometric specification; cutoff < 0 (default) assumed in the symbolic units; d, f shells and hybrids only through C21")
 
+CLAIMED["C28"] = dict(
+    text="'Agree up to discretisation error, with the same index order and sign' is decomposed into contracts. Discharged on the real text (per shape): "
+         "FormulaProduct is the band-space matrix product of its factors with the tensor indices in list order (symbolic factor matrices, one band and a "
+         "two-band group); the real constructors of VelVel, VelOmega, VelSpin, VelHplus, MassVel, VelVelVel build velocity x X with the factor the pairing "
+         "needs; for each of the seven documented pairs the real __init__ / __call__ of both calculators: sea = the Der formula with fder 0 and the derivative "
+         "index moved first where the tensor is not symmetric, surface = the product with fder 1 (2 and half the factor for NLDrude_Fermider2), equal constant "
+         "factors, GME_orb minus 2 E_F x the Berry dipole of the same kind; a calculator with fder = n is the n-th E_F-derivative of the sea calculator of the "
+         "same formula (C13's unit), which fixes the sign. NOT proved, validated pointwise on the installed code (bounded): each sea formula is the k-derivative "
+         "of the surface factor with the derivative index last (central differences of band-resolved values, 1e-5), products equal their factors band by band. "
+         "Assumed (mathematics): integration by parts over the periodic zone. The end-to-end statement itself is a bounded stand-in with a tolerance at the "
+         "grid's discretisation level (45% / 25%): it exposes a sign, a transposition or a missing term, not a few per cent.",
+    note=TB + "; level of the claim: the wiring is proved, the derivative relation and the end-to-end agreement are bounded; no statement about the size of the discretisation error")
+
 NOT_APPLICABLE = {
-    "C28": "agreement only up to discretisation error on converged grids: a numerical-analysis statement, not a postcondition of a call (DESIGN section 7)",
 }
 
 NOT_BUILT = {}
